@@ -1,5 +1,6 @@
 """LIVE histories: a real circusd (under strace), real probe workers, a real SUB socket; the run is recorded
 once and judged by several properties (C02, C03, C04, C09)."""
+import glob
 import json
 import os
 import re
@@ -42,7 +43,13 @@ def ini_for(d, spec):
             ws['die'] = {str(sig): 0.0}
         txt += ('[watcher:%s]\ncmd = %s\nnumprocesses = %d\ngraceful_timeout = %s\nstop_signal = %s\nautostart = False\n'
                 'copy_env = True\n\n' % (w['name'], live.worker_cmd(ws), w['np'], w['gt'], w['stop_signal']))
-    if spec.get('on_demand'):
+    if spec.get('on_demand') == 'trigger':
+        # an on-demand watcher that IS contacted at the end of the history: three workers, spawned 1 s apart, the
+        # first one accepts the connection
+        txt += ('[socket:od]\npath = @DIR@/od.sock\n\n[watcher:od]\ncmd = %s --fd $(circus.sockets.od)\n'
+                'use_sockets = True\non_demand = True\nnumprocesses = 3\nwarmup_delay = 1\ncopy_env = True\n'
+                'graceful_timeout = 0.5\n\n' % live.worker_cmd({'log': '@LOG@', 'tagw': 'od', 'accept': True}))
+    elif spec.get('on_demand'):
         # an idle on-demand watcher: nothing is spawned until somebody connects to its socket; every periodic
         # check looks at that socket
         txt += ('[socket:od]\nhost = 127.0.0.1\nport = 0\n%s\n[watcher:od]\ncmd = %s --fd $(circus.sockets.od)\n'
@@ -63,6 +70,39 @@ def worker_table(d):
         m = re.search(r'"tagw": "(\w+)"', cmd)
         out[pid] = (m.group(1) if m else None, state, stt)
     return out
+
+
+def od_trigger(d, rec):
+    """somebody connects to the socket of the on-demand watcher; `stop` arrives while its start-up sleeps between the
+    first and the second worker; then nothing is sent for 2.5 s"""
+    import socket
+    tr = {'first_seen': None}
+    rec['od_trigger'] = tr
+    c = socket.socket(socket.AF_UNIX)
+    try:
+        c.connect(os.path.join(d.dir, 'od.sock'))
+        t_end = time.time() + 10
+        while time.time() < t_end and tr['first_seen'] is None:
+            if glob.glob(os.path.join(d.logdir, '*.accepted')):
+                tr['first_seen'] = time.time()
+            time.sleep(0.02)
+        if tr['first_seen'] is None:
+            return
+        time.sleep(0.15)
+        rs = d.call('stop', name='od', waiting=True, timeout=20)
+        tr['stop_status'] = rs.get('status')
+        tr['stop_took'] = time.time() - tr['first_seen']
+        seen = {}
+        t_end = time.time() + 2.5
+        while time.time() < t_end:
+            for p, v in worker_table(d).items():
+                if v[0] == 'od':
+                    seen[p] = v
+            time.sleep(0.05)
+        tr['after'] = seen
+        tr['status_after'] = d.call('status', name='od').get('status')
+    finally:
+        c.close()
 
 
 class _DaemonDead(Exception):
@@ -230,6 +270,8 @@ def run(spec, strace=True, probe=False):
                     d.call('kill', name=name, waiting=True, timeout=20)
                 rec['steps_done'].append((t, kind, name))
                 quiesce('after %s %s' % (kind, name))
+            if spec.get('on_demand') == 'trigger':
+                od_trigger(d, rec)
         except _DaemonDead:
             pass
         drain()
@@ -400,7 +442,21 @@ def judge_stop(rec, res, spec):
             res.violation('C02/live:worker-present-when-stop-answered',
                           'right after stop %s was answered ok the daemon still has children %s (pid: tag, state, '
                           'starttime)' % (name, left))
-    if spec.get('on_demand'):
+    tr = rec.get('od_trigger')
+    if tr is not None:
+        if tr['first_seen'] is None:
+            res.inconclusive.append('live: the on-demand watcher did not start within 10 s of a connection')
+        elif tr.get('stop_status') == 'ok' and tr.get('stop_took', 9) < 0.85:
+            # the stop was answered inside the warm-up sleep of the socket-triggered start
+            res.obs['live_stops_inside_an_on_demand_startup_judged'] += 1
+            if tr['after'] or tr['status_after'] != 'stopped':
+                res.violation('C02/live:spawn-after-stop-of-a-starting-on-demand-watcher',
+                              'stop od was answered ok %.2fs after its first worker came up (start-up sleeping between two '
+                              'spawns); in the 2.5 s after that, with no request and no connection: workers %s, status %s'
+                              % (tr['stop_took'], tr['after'], tr['status_after']))
+        else:
+            res.obs['live_on_demand_trigger_not_in_window(not judged)'] += 1
+    if spec.get('on_demand') and spec['on_demand'] != 'trigger':
         # nobody ever talks to the socket of the on-demand watcher: no periodic check may start it
         for pt in rec['points']:
             res.obs['live_on_demand_points_judged'] += 1
